@@ -155,3 +155,50 @@ func TestFixed_KnownCircularRefInRemoteResponse(t *testing.T) {
 		}
 	}
 }
+
+// 966252f: with ContinueOnError an ill-typed $ref target (array, string) must leave the $ref in place
+func TestFixed_IllTypedTargetStaysInPlace(t *testing.T) {
+	dir := t.TempDir()
+	os.WriteFile(filepath.Join(dir, "other.json"), []byte(`{"arr":[1,2],"str":"x"}`), 0o644)
+	var s Schema
+	json.Unmarshal([]byte(`{"properties":{"a":{"$ref":"other.json#/arr"},"b":{"$ref":"other.json#/str"},"c":{"type":"string"}}}`), &s)
+	err := ExpandSchemaWithBasePath(&s, nil, &ExpandOptions{RelativeBase: filepath.Join(dir, "root.json"), ContinueOnError: true})
+	b, _ := json.Marshal(s)
+	t.Logf("err=%v %s", err, b)
+	if probeRefOf(s, "a") == "" || probeRefOf(s, "b") == "" {
+		t.Fatalf("an unresolvable $ref was replaced instead of staying in place: %s", b)
+	}
+}
+
+func probeRefOf(s Schema, name string) string {
+	p := s.Properties[name]
+	return p.Ref.String()
+}
+
+// 0bebf8d: nil interface / map / slice members of a typed document and JSON null targets
+func TestFixed_NothingDesignatedIsAnError(t *testing.T) {
+	doc := `{"swagger":"2.0","info":{"title":"t","version":"1"},"paths":{},"definitions":{"x":{"type":"object"}}}`
+	var typed Swagger
+	if err := json.Unmarshal([]byte(doc), &typed); err != nil {
+		t.Fatal(err)
+	}
+	for _, ptr := range []string{"#/definitions/x/example", "#/definitions/x/properties", "#/definitions/x/required", "#/definitions/x/externalDocs"} {
+		ref := MustCreateRef(ptr)
+		sch, err := ResolveRefWithBase(&typed, &ref, nil)
+		t.Logf("%-32s typed: %v %v", ptr, sch, err)
+		if err == nil {
+			t.Errorf("%s designates nothing in the typed document but resolves to %v without an error", ptr, sch)
+		}
+	}
+	// a $ref to a JSON null in a generic document, ContinueOnError off
+	var generic interface{}
+	_ = json.Unmarshal([]byte(`{"definitions":{"n":null}}`), &generic)
+	var s Schema
+	_ = json.Unmarshal([]byte(`{"properties":{"a":{"$ref":"#/definitions/n"}}}`), &s)
+	err := ExpandSchema(&s, generic, nil)
+	b, _ := json.Marshal(s)
+	t.Logf("null target: err=%v %s", err, b)
+	if err == nil {
+		t.Errorf("a $ref to a JSON null target is accepted without an error")
+	}
+}
